@@ -134,6 +134,14 @@ func (env *SpecEnv) eval(x Expr) SVal {
 			env.vars[v[0]] = SVal{V: scalar(bv), G: v[1]}
 		}
 		body := env.evalBool(n.Body)
+		var trig []*Term
+		for _, tx := range n.Trig {
+			tv := env.eval(tx)
+			if tv.V.T == nil {
+				unsupp("trigger %s is not a scalar term", tx)
+			}
+			trig = append(trig, tv.V.T)
+		}
 		for k, o := range saved {
 			if o == nil {
 				delete(env.vars, k)
@@ -150,6 +158,9 @@ func (env *SpecEnv) eval(x Expr) SVal {
 					pats = append(pats, p)
 				}
 			}
+		}
+		if len(trig) > 0 && n.Forall {
+			return gBool(Forall(bvs, body, MultiPat(trig...)))
 		}
 		if len(pats) != len(bvs) {
 			pats = nil // a pattern must cover every bound variable
@@ -646,6 +657,12 @@ func (env *SpecEnv) typeByName(s string) types.Type {
 	s = strings.TrimPrefix(s, "*")
 	i := strings.LastIndex(s, ".")
 	if i < 0 {
+		// predeclared types: "uint64", "bool", "string", ...
+		if o := types.Universe.Lookup(s); o != nil {
+			if tn, ok := o.(*types.TypeName); ok && !ptr {
+				return tn.Type()
+			}
+		}
 		unsupp("type name %q needs a package qualifier", s)
 	}
 	T := env.e.lookupType(s[:i], s[i+1:], env.pkg)
